@@ -319,6 +319,12 @@ class Client:
             if self.marked != self.pc:
                 self.marked = self.pc
                 eng.world.ev('op', name=op)
+            if op == 'ensure-if-builder-does':
+                if not builder_ensures_before_first_try_lock(eng):
+                    self.done_ops.append(op)
+                    self.pc += 1
+                    continue
+                op = 'ensure'
             if op == 'ensure':
                 if self.cur is None:
                     fut = eng.call('JobServerHandle::ensure_token_or_cheat',
@@ -384,6 +390,25 @@ class Client:
 
 
 _GUARD = {}
+
+
+def builder_ensures_before_first_try_lock(eng):
+    """second loop of builder::run (`while !locked.is_empty() || server.is_running()`): is there an
+    `ensure_token_or_cheat(...)` between `new_lock(fid)` and the first `lock.try_lock()`?  (read from the source text)"""
+    if 'ens' not in _GUARD:
+        import os
+        import re
+        src = open(os.path.join(eng.src.root, 'src/builder.rs')).read()
+        i = src.find('while !locked.is_empty() || server.is_running()')
+        v = False
+        if i >= 0:
+            body = re.sub(r'//[^\n]*', '', src[i:])
+            j = body.find('new_lock(fid)')
+            k = body.find('lock.try_lock()', j)
+            if j >= 0 and k >= 0:
+                v = 'ensure_token_or_cheat(' in body[j:k]
+        _GUARD['ens'] = v
+    return _GUARD['ens']
 
 
 def builder_guards_release_mine(eng):
